@@ -146,7 +146,9 @@ class FakeSocket(object):
             if len(out) < len(d):
                 net.truncated += 1
             return out
-        raise IOError("would block")
+        # what a non-blocking datagram socket with nothing to read raises
+        import errno
+        raise BlockingIOError(errno.EAGAIN, "Resource temporarily unavailable")
 
     def close(self):
         self.closed = True
